@@ -105,6 +105,8 @@ fn attr_text(f: &Field) -> String {
     // `stride = s` or the legacy `stride: s`
     let stride_sep = if f.attr_order % 24 >= 12 { ":" } else { " =" };
     let stride = match f.array {
+        // class B, `array-stride-wraps-the-bounds-computation`: a stride near 2^64 / 3 (syntax = 100 + t)
+        Some(a) if a.explicit && f.syntax > 100 => Some(format!("stride{} {}", stride_sep, 0x5555_5555_5555_5555u64 + (f.syntax - 100) as u64)),
         Some(a) if a.explicit => Some(format!("stride{} {}", stride_sep, num(f, a.stride))),
         _ => None,
     };
@@ -547,7 +549,7 @@ pub fn workspace_cargo_toml(members: &[String]) -> String {
     // Two profiles, same seeds: `dev` is the checked one (overflow checks and debug assertions
     // on, no optimisation); `fast` turns both off and optimises, like a user's release build.
     format!(
-        "[workspace]\nresolver = \"2\"\nmembers = [{}]\n\n[profile.dev]\nopt-level = 0\ndebug = false\noverflow-checks = true\ndebug-assertions = true\nincremental = false\n\n[profile.fast]\ninherits = \"dev\"\nopt-level = 1\noverflow-checks = false\ndebug-assertions = false\n\n# the simulator itself is optimised in both profiles (its overflow checks stay on in `dev`);\n# only the generated declarations, their glue and arbitrary-int are built the way a user's\n# debug build would build them\n[profile.dev.package.simcore]\nopt-level = 2\n\n[profile.dev.package.serde]\nopt-level = 2\n\n[profile.dev.package.serde_json]\nopt-level = 2\n\n[profile.dev.build-override]\nopt-level = 0\ndebug = false\n\n[profile.fast.build-override]\nopt-level = 0\ndebug = false\n",
+        "[workspace]\nresolver = \"2\"\nmembers = [{}]\n\n[profile.dev]\nopt-level = 0\ndebug = false\noverflow-checks = true\ndebug-assertions = true\nincremental = false\n\n[profile.fast]\ninherits = \"dev\"\nopt-level = 1\noverflow-checks = false\ndebug-assertions = false\n\n# the simulator itself is optimised in both profiles (its overflow checks stay on in `dev`);\n# only the generated declarations, their glue and arbitrary-int are built the way a user's\n# debug build would build them\n[profile.dev.package.simcore]\nopt-level = 2\n\n[profile.dev.package.serde]\nopt-level = 2\n\n[profile.dev.package.serde_json]\nopt-level = 2\n\n[profile.dev.build-override]\nopt-level = 0\ndebug = false\n# the macro itself is compiled the way a release build of the user's crate compiles it (cargo's\n# build-override inherits overflow-checks = false from [profile.release]): its own arithmetic\n# wraps instead of panicking, which is the more permissive of the two real configurations\noverflow-checks = false\n\n[profile.fast.build-override]\nopt-level = 0\ndebug = false\n",
         list.join(", ")
     )
 }
